@@ -17,8 +17,9 @@ from __future__ import annotations
 
 import hashlib
 
-from harness.common import Failure, Spec, coq_list
+from harness.common import COQ, REPO, Failure, Spec, coq_list
 from harness import c19
+from translate import c22 as tr
 
 BAD400 = b"HTTP/1.1 400 Bad Request\r\n\r\n"
 CONT100 = b"HTTP/1.1 100 Continue\r\n\r\n"
@@ -353,6 +354,7 @@ SPEC = Spec(
     coq_header="From C18 Require Import Model Run.",
     coq_fn="run_show",
     to_coq=to_coq,
+    regen=lambda: tr.regen(REPO, COQ),      # the model uses C22/Gen.v (byte tables of _abnf.py, limits)
     model_equal=lambda c, a, b: _strip(a) == b,
     nontrivial=lambda c, o: len(c["plans"]) > 1 and len(c["stream"]) > 40,
     histogram=histogram,
